@@ -353,8 +353,8 @@ pub fn property() -> Property {
     const PAIRS: &[(&str, u32)] = &[("generic", 200), ("near-parallel", 50), ("near-antiparallel", 50), ("parallel", 50), ("antiparallel", 50), ("nearby", 50)];
     macro_rules! inner {
         ($T:ident, $tag:expr) => {
-            add!(concat!("inner-", $tag, "-Q"), "Q", inner_field::<Q, $T<Q>>, 2000, 150_000, 32, &[("generic", 100)], RG);
-            add!(concat!("inner-", $tag, "-Fp"), "Fp", inner_field::<Fp, $T<Fp>>, 2000, 150_000, 32, &[("generic", 100)], RG);
+            add!(concat!("inner-", $tag, "-Q"), "Q", inner_field::<Q, $T<Q>>, 2000, 150_000, 56, &[("generic", 100)], RG);
+            add!(concat!("inner-", $tag, "-Fp"), "Fp", inner_field::<Fp, $T<Fp>>, 2000, 150_000, 56, &[("generic", 100)], RG);
             add!(concat!("lengths-", $tag, "-Q"), "Q", lengths_q::<$T<Q>>, 2000, 150_000, 48, &[], "vector of rational length with no zero component, m and scale != 1");
             add!(concat!("lengths-", $tag, "-f64"), "f64", lengths_f64::<$T<f64>>, 3000, 200_000, 72, PAIRS, "every generated pair");
             add!(concat!("angle-", $tag, "-f64"), "f64", angle_f64::<$T<f64>>, 4000, 300_000, 72, PAIRS, "every generated pair; (anti)parallel and nearly (anti)parallel pairs required");
@@ -367,8 +367,8 @@ pub fn property() -> Property {
     inner!(Quaternion, "Quaternion");
     macro_rules! metric {
         ($T:ident, $tag:expr) => {
-            add!(concat!("metric-", $tag, "-Q"), "Q", metric_field::<Q, $T<Q>>, 2000, 100_000, 24, &[("generic", 100)], "p - q has no zero component");
-            add!(concat!("metric-", $tag, "-Fp"), "Fp", metric_field::<Fp, $T<Fp>>, 2000, 100_000, 24, &[("generic", 100)], "p - q has no zero component");
+            add!(concat!("metric-", $tag, "-Q"), "Q", metric_field::<Q, $T<Q>>, 2000, 100_000, 48, &[("generic", 100)], "p - q has no zero component");
+            add!(concat!("metric-", $tag, "-Fp"), "Fp", metric_field::<Fp, $T<Fp>>, 2000, 100_000, 48, &[("generic", 100)], "p - q has no zero component");
             add!(concat!("distance-", $tag, "-Q"), "Q", point_lengths_q::<$T<Q>>, 2000, 100_000, 32, &[], "p has no zero component");
             add!(concat!("distance-", $tag, "-f64"), "f64", point_distance_f64::<$T<f64>>, 3000, 200_000, 72, PAIRS, "every generated pair of points");
         };
